@@ -12,8 +12,10 @@ T.alias('RcptResult', 'Union[None, Reply, PermanentRelayError, TransientRelayErr
 # ---------------------------------------------------------------------------- data classes
 klass('Reply', fields={'code': 'Opt[Str]', 'message': 'Opt[Str]'}, eq=['code', 'message'],
       truthy='self.code is not None')
-extern('Reply.__init__', params={'self': 'Reply', 'code': 'Opt[Str]', 'message': 'Union[None, Str, Bytes]'},
-       defaults={'code': 'None', 'message': 'None'}, modifies=['self.code', 'self.message'],
+extern('Reply.__init__', params={'self': 'Reply', 'code': 'Opt[Str]', 'message': 'Union[None, Str, Bytes]',
+                                  'command': 'Any', 'address': 'Any'},
+       defaults={'code': 'None', 'message': 'None', 'command': 'None', 'address': 'None'},
+       modifies=['self.code', 'self.message'],
        ensures=['self.code == code', 'not is_type(message, Bytes)'],
        raises={'TypeError': ['is_type(message, Bytes)']},
        notes='Reply(code, message): code stored as given (3-digit validation not modelled here), message opaque')
